@@ -301,6 +301,64 @@ def _ood_failures(limit=None):
         shutil.rmtree(work, ignore_errors=True)
     return fails, n
 
+
+def _names_failures(limit=None):
+    """Bounded: one record, one name per file, on the real binaries.  A small tree with a symlinked directory (link -> real) and
+    a symlink that leaves its directory (a/jump -> ../b/deep); nine spellings of three files; for every ordered pair of
+    spellings a fresh project in which `redo <first>` and then `redo <second>` run.  Afterwards the Files table is read:
+    every record of a *.gen file carries the physical name of the spelling that asked for it (directory part resolved,
+    then cleaned), no two records denote one file, and the file that was asked for is the one that was built.
+    -> (failures, n_histories) or None"""
+    import itertools, sqlite3
+    bindir = build_redo_bin()
+    if not bindir:
+        return None
+    env = {k: v for k, v in os.environ.items() if not k.startswith('REDO') and k != 'MAKEFLAGS'}
+    env['PATH'] = bindir + ':' + env.get('PATH', '')
+    work = tempfile.mkdtemp(prefix='redo-verif-names.', dir='/var/tmp')
+    spell = ['real/x.gen', 'link/x.gen', 'real/sub/../x.gen', 'link/sub/../x.gen', './real//x.gen',
+             'a/x.gen', 'a/jump/../x.gen', 'b/x.gen', 'b/deep/../x.gen']
+    fails, n = [], 0
+    try:
+        for s1, s2 in itertools.permutations(spell, 2):
+            if limit is not None and n >= limit:
+                break
+            n += 1
+            proj = os.path.join(work, 'p%d' % n)
+            for d in ('real/sub', 'a', 'b/deep'):
+                os.makedirs(os.path.join(proj, d))
+            os.symlink('real', os.path.join(proj, 'link'))
+            os.symlink('../b/deep', os.path.join(proj, 'a', 'jump'))
+            open(os.path.join(proj, 'default.gen.do'), 'w').write('echo "$1" >>"%s/trace"\necho made\n' % proj)
+            hist = 'tree: link -> real, a/jump -> ../b/deep; redo %s; redo %s' % (s1, s2)
+
+            def canon(sp):
+                d, b = os.path.split(sp)
+                return os.path.relpath(os.path.join(os.path.realpath(os.path.join(proj, d)), b), proj)
+            ok = True
+            for sp in (s1, s2):
+                r = subprocess.run(['redo', '--no-log', sp], cwd=proj, env=env, capture_output=True, text=True, timeout=60)
+                if r.returncode != 0:
+                    fails.append(dict(input=hist, observed='`redo %s` exits %d: %s' % (sp, r.returncode, r.stderr.strip()[-200:]),
+                                      clause='every spelling of a file is accepted and names that file'))
+                    ok = False
+                    break
+            if ok:
+                db = sqlite3.connect(os.path.join(proj, '.redo', 'db.sqlite3'))
+                rows = [r[0] for r in db.execute("select name from Files where name like '%.gen'")]
+                db.close()
+                want = sorted(set([canon(s1), canon(s2)]))
+                if sorted(rows) != want:
+                    fails.append(dict(input=hist, observed='records: %s; files named: %s' % (sorted(rows), want),
+                                      clause='one record per file, under its physical name (directory part resolved before cleaning)'))
+                for c in want:
+                    if not os.path.exists(os.path.join(proj, c)):
+                        fails.append(dict(input=hist, observed='%s was asked for and does not exist' % c, clause='the file that was asked for is the one that is built'))
+            shutil.rmtree(proj, ignore_errors=True)
+    finally:
+        shutil.rmtree(work, ignore_errors=True)
+    return fails, n
+
 # ---------------------------------------------------------------- interface used by run.py
 def search(prop, violations, tier, seed):
     """attach a concrete failing input to a reported violation, if a probe covers its function"""
@@ -378,6 +436,13 @@ def conformance(prop, unit_names, pins_changed, labels_props):
             out.append(dict(oid='queries/ood_list/ood.lists_every_definitely_stale_target', msg='clause fails on the real binaries for a concrete history (bounded probe ood, %d histories)' % r[1],
                             where=REPO + '/src/bin/redo/ood.rs:run', site=None, text=hits[0]['clause'], rendered=json.dumps(hits[:6], indent=1),
                             inputs=[h['input'] for h in hits], fn='ood_list', label='ood.lists_every_definitely_stale_target', props=['C17']))
+    if prop in ('C15', 'C07', 'C06') and ('relpath' in unit_names or any(p.endswith('::from_name') or p.endswith('::realdirpath') for p in pins_changed)):
+        r = _names_failures()
+        if r and r[0]:
+            hits = r[0]
+            out.append(dict(oid='trusted/File::from_name/one_record_one_name_per_file', msg='clause fails on the real binaries for a concrete history (bounded probe names, %d histories)' % r[1],
+                            where=REPO + '/src/state.rs:File::from_name', site=None, text=hits[0]['clause'], rendered=json.dumps(hits[:6], indent=1),
+                            inputs=[h['input'] for h in hits], fn='from_name', label='one_record_one_name_per_file', props=[prop]))
     if any(p.endswith('::deps') or p.endswith('::zap_deps1') or p.endswith('::zap_deps2') or p.endswith('::add_dep') for p in pins_changed):
         f = _deps_failures()
         if f:
@@ -404,6 +469,17 @@ def bounded(prop, unit_names, labels_props):
                 out.append(dict(oid='queries/ood_list/ood.lists_every_definitely_stale_target', msg='clause fails on the real binaries for a concrete history (bounded probe ood)',
                                 where=REPO + '/src/bin/redo/ood.rs:run', site=None, text=hits[0]['clause'], rendered=json.dumps(hits[:6], indent=1),
                                 inputs=[h['input'] for h in hits], fn='ood_list', label='ood.lists_every_definitely_stale_target', props=['C17']))
+    if prop in ('C15', 'C07', 'C06') and os.environ.get('VERIF_TIER_EFFECTIVE') == 'thorough':
+        r = _names_failures()
+        if r is None:
+            notes.append('bounded probe names: could not be built or run (nothing concluded from it)')
+        else:
+            notes.append('bounded probe names: %d histories on the real binaries (9 spellings of 3 files through symlinked directories, every ordered pair), %d failure(s) [bounded, not counted as proved]' % (r[1], len(r[0])))
+            if r[0]:
+                hits = r[0]
+                out.append(dict(oid='trusted/File::from_name/one_record_one_name_per_file', msg='clause fails on the real binaries for a concrete history (bounded probe names)',
+                                where=REPO + '/src/state.rs:File::from_name', site=None, text=hits[0]['clause'], rendered=json.dumps(hits[:6], indent=1),
+                                inputs=[h['input'] for h in hits], fn='from_name', label='one_record_one_name_per_file', props=[prop]))
     for unit, probe_, fn_, where in PROBED:
         if unit not in BOUNDED.get(prop, ()) or unit not in unit_names:
             continue
